@@ -41,7 +41,11 @@ TypeOf(id) == SubSeq(id, 1, 1)
 Put(w, id, f) == [x \in DOMAIN w \cup {id} |-> IF x = id THEN f ELSE w[x]]
 
 \* ------------------------------------------------------------------ validity (ingest/validate.go)
-Loc(w, pid) == IF Get(w, pid).kind = "point" THEN Get(w, pid).v ELSE -1
+\* a path may also carry raw locations next to point references ("mixed geometry"): "L<n>" is the literal vertex n
+LV == ("L0" :> 0) @@ ("L1" :> 1) @@ ("L2" :> 2) @@ ("L3" :> 3) @@ ("L4" :> 4) @@ ("L5" :> 5) @@ ("L6" :> 6) @@
+      ("L7" :> 7) @@ ("L8" :> 8) @@ ("L9" :> 9) @@ ("L10" :> 10) @@ ("L11" :> 11)
+IsLit(p) == p \in DOMAIN LV
+Loc(w, pid) == IF IsLit(pid) THEN LV[pid] ELSE IF Get(w, pid).kind = "point" THEN Get(w, pid).v ELSE -1
 Verts(w, f) == [i \in DOMAIN f.pts |-> Loc(w, f.pts[i])]
 ClosedByRef(f) == Len(f.pts) >= 1 /\ f.pts[1] = f.pts[Len(f.pts)]
 CyclicUp(s) == \E r \in 1..Len(s) : \A i \in 1..(Len(s) - 1) :
@@ -75,7 +79,7 @@ Unspecified(w, f) == f.kind = "path" /\ Len(f.pts) >= 2 /\ (\A i \in DOMAIN f.pt
 
 \* ------------------------------------------------------------------ references
 Range(s) == {s[i] : i \in DOMAIN s}
-DirectRefs(f) == Range(f.pts) \cup UNION {Range(f.polys[i]) : i \in DOMAIN f.polys} \cup Range(f.members)
+DirectRefs(f) == (Range(f.pts) \ DOMAIN LV) \cup UNION {Range(f.polys[i]) : i \in DOMAIN f.polys} \cup Range(f.members)
 DirectReferrers(w, id) == {r \in PresentIDs(w) : id \in DirectRefs(w[r])}
 RECURSIVE Up(_, _, _)
 Up(w, frontier, seen) == LET nxt == (UNION {DirectReferrers(w, x) : x \in frontier}) \ seen IN
